@@ -42,6 +42,33 @@ def monitor_c07(ex, idx, C, raw, where):
     ex.probe("c07_tree_depth_%d" % min(depth, 5))
 
 
+def grand_totals_c07(ex, idx, obs, totals, where):
+    """C07: 'the grand totals are the sums over languages'.  The grand totals only exist in
+    the object the scan hands to its live display; it is observed through the Live seam."""
+    live = obs.get("_live")
+    st = getattr(live, "_stc", None)
+    if st is None:
+        ex.probe("c07_grand_totals_unobservable")
+        return
+    try:
+        got = {"files": st.total_files(), "functions": st.total_functions(), "lines_of_code": st.total_loc(),
+               "hard_to_maintain": st.total_hard_to_maintain(), "unmaintainable": st.total_unmaintainable()}
+        per = {lt.language: {"files": lt.files, "functions": lt.functions, "lines_of_code": lt.loc,
+                             "hard_to_maintain": lt.hard_to_maintain, "unmaintainable": lt.unmaintainable}
+               for lt in st.languages_totals()}
+    except (AttributeError, TypeError):
+        ex.probe("c07_grand_totals_unobservable")
+        return
+    want = {k: sum(t[k] for t in totals.values()) for k in got}
+    if got != want:
+        ex.add(violation("C07", "grand_totals_are_sums_over_languages",
+                         "%s: displayed grand totals %s != sums over the report's languages %s" % (where, got, want), idx))
+    elif per != totals:
+        ex.add(violation("C07", "displayed_language_totals_equal_report",
+                         "%s: per-language totals handed to the display %s != report totals %s" % (where, O._short(per), O._short(totals)), idx))
+    ex.probe("c07_grand_totals_checked")
+
+
 def all_files(w):
     return [rel.replace(os.sep, "/") for rel, is_dir in list_tree(w.root) if not is_dir]
 
@@ -95,6 +122,11 @@ def after_scan(ex, idx, op, obs, C, raw, pre_cache, pre_class):
         return
     ex.cache_owner = "own"
     ex.last_scan_report = C
+    if not op.get("verbose"):
+        try:
+            grand_totals_c07(ex, idx, obs, C["codebase"]["totals"], "scan")
+        except (KeyError, TypeError):
+            pass
     ex.last_scan_tree = O.digest([w.tree_digest(), w.cli_excludes, w.yml_patterns, w.gi_patterns])
     monitor_c07(ex, idx, C, raw, "scan")
 
